@@ -578,9 +578,39 @@ def dotted(e):
     return None
 
 
-def bind_call(fn, call, skip_self=False):
+def expand_star_kwargs(call, scope):
+    """`f(..., **name)` where name is bound exactly once in scope to a dictionary display / dict(k=v, ...) with constant string keys:
+    the equivalent call with the entries written as keyword arguments (a structural copy; the tree is not modified)"""
+    if scope is None or not any(k.arg is None for k in call.keywords):
+        return call
+    defs = {}
+    for n in ast.walk(scope):
+        if isinstance(n, ast.Assign) and len(n.targets) == 1 and isinstance(n.targets[0], ast.Name):
+            defs.setdefault(n.targets[0].id, []).append(n.value)
+        elif isinstance(n, (ast.AugAssign, ast.For)) and isinstance(getattr(n, 'target', None), ast.Name):
+            defs.setdefault(n.target.id, []).append(None)
+    kws = []
+    for k in call.keywords:
+        if k.arg is not None:
+            kws.append(k)
+            continue
+        v = k.value
+        if isinstance(v, ast.Name) and len(defs.get(v.id, [])) == 1 and defs[v.id][0] is not None:
+            v = defs[v.id][0]
+        if isinstance(v, ast.Dict) and all(isinstance(x, ast.Constant) and isinstance(x.value, str) for x in v.keys):
+            kws.extend(ast.keyword(arg=x.value, value=y) for x, y in zip(v.keys, v.values))
+        elif isinstance(v, ast.Call) and isinstance(v.func, ast.Name) and v.func.id == 'dict' and not v.args and all(x.arg is not None for x in v.keywords):
+            kws.extend(v.keywords)
+        else:
+            kws.append(k)
+    new = ast.Call(func=call.func, args=call.args, keywords=kws)
+    return ast.copy_location(new, call)
+
+
+def bind_call(fn, call, skip_self=False, scope=None):
     """map a call's arguments to the parameter names of fn.
     returns (binding: name -> arg node, problems: [str])"""
+    call = expand_star_kwargs(call, scope)
     a = fn.args
     pos = [x.arg for x in a.posonlyargs + a.args]
     if skip_self and pos:
